@@ -1,7 +1,8 @@
 --------------------------- MODULE Trace_KeyParams ---------------------------
 (* Trace validation for C12, part 1: key and parameters round trips.                     *)
-(* One event per parameter record enumerated by Plan_KeyParams: what the REAL            *)
-(* constructor said (accepted), parameters -> KeyTemplate -> parameters, and for every    *)
+(* Per parameter record enumerated by Plan_KeyParams a "params" event: what the REAL     *)
+(* constructor said (accepted), parameters -> KeyTemplate -> parameters; and a "keys"      *)
+(* event for every accepted record: for every                                             *)
 (* key kind (symmetric | private, public) and material class (random, zero, leadzero,     *)
 (* maxid, id0) key -> KeySerialization -> key, as recorded from                           *)
 (* internal/protoserialization and from the public keyset route (Manager.AddKey +         *)
@@ -66,19 +67,32 @@ RECURSIVE FirstBad(_, _, _, _)
 FirstBad(T, p, ks, i) ==
   IF i > Len(ks) THEN <<>>
   ELSE LET b == JudgeKey(T, p, ks[i]) IN
-       IF b # <<>> THEN <<b[1], ks[i].kind \o "/" \o ks[i].mc>> \o Tail(b) ELSE FirstBad(T, p, ks, i + 1)
+       IF b # <<>> THEN <<b[1], ks[i].kind, ks[i].mc>> \o Tail(b) ELSE FirstBad(T, p, ks, i + 1)
 
+\* events: "params" (constructor verdict and the template round trip) and "keys" (all keys of an accepted record)
 Judge(e) ==
-  IF e.panic THEN <<"panic in a parameters constructor", "no panic">>
+  IF e.ev = "keys" THEN FirstBad(e.kt, e.p, e.keys, 1)
+  ELSE IF e.panic THEN <<"panic in a parameters constructor", "no panic">>
   ELSE IF e.accepted # ParamsOK(e.kt, e.p)
          THEN <<"COVERAGE: constructor acceptance differs from ParamsOK", ToString(ParamsOK(e.kt, e.p))>>
   ELSE IF ~e.accepted THEN <<>>
-  ELSE LET t == JudgeTemplate(e.kt, e.p, e.tpl) IN
-       IF t # <<>> THEN t ELSE FirstBad(e.kt, e.p, e.keys, 1)
+  ELSE JudgeTemplate(e.kt, e.p, e.tpl)
 
-VARIABLES l, bad
-Init == l = Start /\ bad = <<>>
-Next == l <= Len(Trace) /\ bad' = Judge(Trace[l]) /\ l' = l + 1
+\* A disagreement is reported once per signature (key type, event, reason, key kind, representable class) and shard:
+\* repetitions of an already reported signature do not stop the run again (the check de-duplicates by signature
+\* anyway); after a restart behind a mismatch the signatures of the prefix are recomputed.
+SigOf(e, b) == <<e.kt, e.ev, b[1], IF e.ev = "keys" THEN b[2] ELSE "", e.rep>>
+SigsUpTo(n) == {SigOf(Trace[i], Judge(Trace[i])) : i \in {j \in 1..n : Judge(Trace[j]) # <<>>}}
+
+VARIABLES l, bad, seen
+Init == l = Start /\ bad = <<>> /\ seen = SigsUpTo(Start - 1)
+Next ==
+  /\ l <= Len(Trace)
+  /\ l' = l + 1
+  /\ LET b == Judge(Trace[l]) IN
+       IF b = <<>> THEN bad' = <<>> /\ seen' = seen
+       ELSE /\ seen' = seen \cup {SigOf(Trace[l], b)}
+            /\ bad' = IF SigOf(Trace[l], b) \in seen THEN <<>> ELSE b
 Conforms == bad = <<>>
 Consumed == TLCGet("stats").diameter = Len(Trace) + 2 - Start
 ================================================================================
